@@ -105,31 +105,59 @@ PollAll ==
   /\ uaf' = (uaf \/ \E b \in Watchers : bAlive[b] /\ bPtr[b] # 0 /\ ~oAlive[bPtr[b]])
   /\ UNCHANGED <<oAlive, oStamp, oList, bAlive, bPtr>>
 
+\* The two destructors as functions on the part of the state they touch
+\*   m = [oAlive, oStamp, oList, bAlive, bStamp, bPtr, uaf]
+Cur == [oAlive |-> oAlive, oStamp |-> oStamp, oList |-> oList, bAlive |-> bAlive, bStamp |-> bStamp, bPtr |-> bPtr, uaf |-> uaf]
+ListHas(m, b, o) == \E i \in DOMAIN m.oList[o] : m.oList[o][i] = b
+
+\* ~Observable():  for (p : observers) p->observee = nullptr
+DSubject(m, o) ==
+  [m EXCEPT !.oAlive[o] = FALSE, !.oStamp[o] = 0, !.oList[o] = <<>>,
+            !.bPtr = IF Orphan THEN [b \in Watchers |-> IF ListHas(m, b, o) THEN 0 ELSE m.bPtr[b]] ELSE m.bPtr,
+            !.uaf = m.uaf \/ (Orphan /\ \E b \in Watchers : ListHas(m, b, o) /\ ~m.bAlive[b])]     \* writes p->observee
+
+\* ~Observer():  if (observee) observee->removeObserver(*this)
+DWatcher(m, b) ==
+  [m EXCEPT !.bAlive[b] = FALSE, !.bStamp[b] = 0, !.bPtr[b] = 0,
+            !.oList = IF Unregister /\ m.bPtr[b] # 0 THEN [m.oList EXCEPT ![m.bPtr[b]] = Without(@, b)] ELSE m.oList,
+            !.uaf = m.uaf \/ (Unregister /\ m.bPtr[b] # 0 /\ ~m.oAlive[m.bPtr[b]])]                  \* calls observee->removeObserver
+
+Install(m) ==
+  /\ oAlive' = m.oAlive /\ oStamp' = m.oStamp /\ oList' = m.oList
+  /\ bAlive' = m.bAlive /\ bStamp' = m.bStamp /\ bPtr' = m.bPtr /\ uaf' = m.uaf
+
 DestroyObservable(o) ==
   /\ oAlive[o]
-  /\ oAlive' = [oAlive EXCEPT ![o] = FALSE]
-  /\ bPtr' = IF Orphan THEN [b \in Watchers |-> IF InList(b, o) THEN 0 ELSE bPtr[b]] ELSE bPtr
-  /\ uaf' = (uaf \/ (Orphan /\ \E b \in Watchers : InList(b, o) /\ ~bAlive[b]))   \* writes p->observee
-  /\ oStamp' = [oStamp EXCEPT ![o] = 0] /\ oList' = [oList EXCEPT ![o] = <<>>]
-  /\ UNCHANGED <<g, bAlive, bStamp>>
+  /\ Install(DSubject(Cur, o))
+  /\ UNCHANGED g
   /\ last' = [a |-> "DestroyObservable", arg |-> [o |-> o],
               cls |-> IF C!AttachedTo(o) = {} THEN "unobserved" ELSE "observed", exp |-> Void]
 
 DestroyObserver(b) ==
   /\ bAlive[b]
-  /\ bAlive' = [bAlive EXCEPT ![b] = FALSE]
-  /\ oList' = IF Unregister /\ bPtr[b] # 0 THEN [oList EXCEPT ![bPtr[b]] = Without(@, b)] ELSE oList
-  /\ uaf' = (uaf \/ (Unregister /\ bPtr[b] # 0 /\ ~oAlive[bPtr[b]]))             \* calls observee->removeObserver
-  /\ bStamp' = [bStamp EXCEPT ![b] = 0] /\ bPtr' = [bPtr EXCEPT ![b] = 0]
-  /\ UNCHANGED <<g, oAlive, oStamp>>
+  /\ Install(DWatcher(Cur, b))
+  /\ UNCHANGED g
   /\ last' = [a |-> "DestroyObserver", arg |-> [b |-> b],
               cls |-> IF bPtr[b] = 0 THEN "orphaned" ELSE "attached", exp |-> Void]
+
+\* end of a scope: every living object is destroyed, slot by slot, observers first or observables first
+RECURSIVE AllWatchers(_, _), AllSubjects(_, _)
+AllWatchers(m, b) == IF b > NW THEN m ELSE AllWatchers(IF m.bAlive[b] THEN DWatcher(m, b) ELSE m, b + 1)
+AllSubjects(m, o) == IF o > Cardinality(Subjects) THEN m ELSE AllSubjects(IF m.oAlive[o] THEN DSubject(m, o) ELSE m, o + 1)
+
+Teardown(order) ==
+  /\ (\E b \in Watchers : bAlive[b]) \/ (\E o \in Subjects : oAlive[o])
+  /\ Install(IF order = "observers_first" THEN AllSubjects(AllWatchers(Cur, 1), 1) ELSE AllWatchers(AllSubjects(Cur, 1), 1))
+  /\ UNCHANGED g
+  /\ last' = [a |-> "Teardown", arg |-> [order |-> order],
+              cls |-> IF \E b \in Watchers : bPtr[b] # 0 THEN "attached" ELSE "detached", exp |-> Void]
 
 Next ==
   \/ \E o \in Subjects : CreateObservable(o) \/ Notify(o) \/ DestroyObservable(o)
   \/ \E b \in Watchers : Poll(b) \/ DestroyObserver(b)
   \/ \E b \in Watchers, o \in Subjects : CreateObserver(b, o)
   \/ PollAll
+  \/ \E order \in {"observers_first", "observables_first"} : Teardown(order)
 
 Spec == Init /\ [][Next]_mvars
 
